@@ -28,6 +28,7 @@ type Engine struct {
 	oblByName  map[string]*Obligation
 	warnings   map[string]bool
 	externals  map[string]bool
+	usedSpecs  map[string]bool // contracts applied at some call site in this run
 	typeIDs    map[string]int
 	strLits    map[string]int
 	regionIDs  map[string]int
@@ -48,7 +49,7 @@ func repoPkgPrefix() string { return "github.com/craterdog/go-collection-framewo
 
 func NewEngine(repo string) (*Engine, error) {
 	e := &Engine{repo: repo, spkgs: map[string]*ssa.Package{}, funcs: map[string]*ssa.Function{}, funcKey: map[*ssa.Function]string{},
-		typeByKey: map[string]*types.Named{}, oblByName: map[string]*Obligation{}, warnings: map[string]bool{}, externals: map[string]bool{},
+		typeByKey: map[string]*types.Named{}, oblByName: map[string]*Obligation{}, warnings: map[string]bool{}, externals: map[string]bool{}, usedSpecs: map[string]bool{},
 		typeIDs: map[string]int{}, strLits: map[string]int{}, regionIDs: map[string]int{}, lemmaLimit: -1}
 	cfg := &packages.Config{Mode: packages.LoadAllSyntax, Dir: filepath.Join(repo, "v4"), Tests: false,
 		Env: append(os.Environ(), "GOFLAGS=-mod=mod", "GOPROXY=off", "GOSUMDB=off", "GOTOOLCHAIN=local")}
